@@ -282,8 +282,8 @@ def directed(rng):
 def pool(seed, tier, strategies=None, n_fast=None, n_slow=None, inject=False, feature_sets=None):
     """list of run records.  quick: ~45 fast scenarios x 3 fast strategies + ~8 small scenarios x slow strategies"""
     rng = random.Random("pool/%d" % seed)
-    n_fast = n_fast if n_fast is not None else (140 if tier == "quick" else 1200)
-    n_slow = n_slow if n_slow is not None else (8 if tier == "quick" else 60)
+    n_fast = n_fast if n_fast is not None else (140 if tier == "quick" else 420)
+    n_slow = n_slow if n_slow is not None else (8 if tier == "quick" else 24)
     strategies = strategies or scen.STRATS
     recs = []
     tmp = tempfile.mkdtemp(prefix="verif_sim_")
